@@ -116,7 +116,9 @@ Inductive case :=
 (* master key from a seed *)
 | Master (o : oracles) (seed : string) (testnet : bool) (ob : res onode)
 (* the node returned by derive_path itself, no serialisation: (key, chain, depth, index) *)
-| DeriveRaw (o : oracles) (s : start) (path : list Z) (ob : res (string * string * Z * Z)).
+| DeriveRaw (o : oracles) (s : start) (path : list Z) (ob : res (string * string * Z * Z))
+(* the node returned by master_key itself, no serialisation *)
+| MasterRaw (o : oracles) (seed : string) (testnet : bool) (ob : res (string * string * Z * Z)).
 
 Definition check_case (c : case) : Z :=
   match c with
@@ -177,6 +179,19 @@ Definition check_case (c : case) : Z :=
             | None, Ok _ => false
             end
           end in
+      verdict agrees prop
+  | MasterRaw o seed t ob =>
+      let m := rmap (fun nd => (nkey nd, nchain nd, ndepth nd, nindex nd)) (master_key (hmac512 o) (unhex seed) (codes "Bitcoin seed") t) in
+      let ob' := rmap (fun p => match p with (k, c, d, i) => (unhex k, unhex c, d, i) end) ob in
+      let eq4 (a b : bytes * bytes * Z * Z) :=
+        match a, b with (k, c, d, i), (k', c', d', i') => beq_bytes k k' && beq_bytes c c' && (d =? d') && (i =? i') end in
+      let agrees := beq_res eq4 m ob' in
+      let prop :=
+        match master C (hmac512 o) (unhex seed) (codes "Bitcoin seed"), ob' with
+        | Some x, Ok (k, c, d, i) => (be2z k =? x_k x) && beq_bytes c (x_c x) && (d =? 0) && (i =? 0)
+        | None, Err => true
+        | _, _ => false
+        end in
       verdict agrees prop
   | Master o seed t ob =>
       let m := bind (master_key (hmac512 o) (unhex seed) (codes "Bitcoin seed") t) (observe o) in
